@@ -7,3 +7,4 @@ CONSTRAINT Bound
 INVARIANT SameAsOne
 INVARIANT SafeToo
 CHECK_DEADLOCK FALSE
+CONSTANT GrowRange <- SmallRange
